@@ -148,7 +148,7 @@ Definition cached_of (v : facts) : cached :=
 
 Definition analyze (cleanup : bool) (F : path) (v : facts) (s : index) : index :=
   let s := set_file_cache s (ainsert F (cached_of v) (file_cache s)) in
-  if negb (f_ok v) then s else
+  if negb (f_ok v) then set_version s (version s + 1) else
   let s := cleanup_usages F s in
   let s := if cleanup then cleanup_defs F s else s in
   let s := set_version s (version s + 1) in
@@ -159,14 +159,19 @@ Definition analyze (cleanup : bool) (F : path) (v : facts) (s : index) : index :
 Definition close (F : path) (s : index) : index :=
   let s := set_file_cache s (aremove F (file_cache s)) in
   let s := set_av_cache s (aremove F (av_cache s)) in
-  set_imp_cache s (aremove F (imp_cache s)).
+  let s := set_imp_cache s (aremove F (imp_cache s)) in
+  set_version s (version s + 1).
 
 (** [evict_cache_if_needed]: the evicted key set is whatever the map iteration
     yields first; it is an explicit argument (oracle). *)
 Definition max_file_cache_size : N := 2000.
+Definition drop_cached (F : path) (s : index) : index :=
+  let s := set_file_cache s (aremove F (file_cache s)) in
+  let s := set_av_cache s (aremove F (av_cache s)) in
+  set_imp_cache s (aremove F (imp_cache s)).
 Definition evict (keys : list path) (s : index) : index :=
   if max_file_cache_size <? len (file_cache s)
-  then fold_left (fun s k => close k s) keys s
+  then let s := fold_left (fun s k => drop_cached k s) keys s in set_version s (version s + 1)
   else s.
 
 Definition mark_plugin (F : path) (s : index) : index :=
